@@ -1109,12 +1109,15 @@ Error CodeHolder::flatten() noexcept {
     }
     section->set_offset(offset);
 
-    // Make sure the previous section extends a bit to cover the alignment.
-    if (prev) {
-      prev->_virtual_size = offset - prev->_offset;
+    // Make sure the previous section extends a bit to cover the alignment. Empty sections take no part in this,
+    // otherwise an empty section would become non-empty and `code_size()` would no longer match the layout.
+    if (real_size) {
+      if (prev) {
+        prev->_virtual_size = offset - prev->_offset;
+      }
+      prev = section;
     }
 
-    prev = section;
     offset += real_size;
   }
 
